@@ -408,6 +408,7 @@ impl VirtualSystem {
         flags: EnumSet<OpenFlag>,
         mode: Mode,
     ) -> Result<(Rc<RefCell<Inode>>, bool, bool)> {
+        let has_trailing_slash = path.to_bytes().ends_with(b"/");
         let path = self.resolve_relative_path(Path::new(UnixStr::from_bytes(path.to_bytes())));
         let umask = self.current_process().umask;
 
@@ -436,6 +437,11 @@ impl VirtualSystem {
                 inode
             }
             Err(Errno::ENOENT) if flags.contains(OpenFlag::Create) => {
+                if has_trailing_slash {
+                    // A pathname with a trailing slash names a directory,
+                    // which cannot be created by opening it.
+                    return Err(Errno::EISDIR);
+                }
                 let mut inode = Inode::new([]);
                 inode.permissions = mode.difference(umask);
                 let inode = Rc::new(RefCell::new(inode));
